@@ -17,7 +17,7 @@ STUBS = ["the power flow of each N-1 case is replaced by its contract: it fills 
 ASSUMPTIONS = ["loadings symbolic in [0,200] %, limits in [10,150] %, voltages in [0.8,1.2]", "all N-1 power flows converge (non-converged cases "
                "are skipped by run_contingency before aggregation: covered by the fault-schedule part)"]
 OUTSIDE = ["run_contingency_ls2g (compiled lightsim2grid)", "the power flows themselves", "tdpf temperature variable (same code path as loading)"]
-BOUNDS = {"quick": "3 lines, 1 bus; N-1 case lists of length 2 and 3 in 4 orders; own-outage entry 0.0 / NaN",
+BOUNDS = {"quick": "3 lines, 1 bus; N-1 case lists of length 2 and 3 in 4 orders; own-outage entry 0.0 / NaN; the real run_contingency on 2 lines + trafo + trafo3w with overlapping indices, 2 case lists",
           "thorough": "all orders of all case subsets of 3 lines (15 lists) x own-outage shape {0.0, NaN} + trafo as second element type"}
 NAN = float("nan")
 
@@ -125,6 +125,130 @@ def make_fn(n, order, own_val, with_bus=True, nan_entries=()):
     return fn
 
 
+# ---------------------------------------------------------------- the real entry points on a net with several branch element types
+_MT = {}
+MT_ELEMENTS = [("line", 0), ("line", 1), ("trafo", 0), ("trafo3w", 0)]
+
+
+def _mt_net():
+    """lines, a transformer and a three-winding transformer whose indices overlap (line 0 / trafo 0 / trafo3w 0)"""
+    if "n" not in _MT:
+        from .common import pp
+        net = pp.create_empty_network()
+        b = [pp.create_bus(net, v) for v in (110., 110., 20., 10.)]
+        pp.create_ext_grid(net, b[0])
+        pp.create_line_from_parameters(net, b[0], b[1], 5., 0.1, 0.3, 10., 0.5)
+        pp.create_line_from_parameters(net, b[0], b[1], 6., 0.1, 0.3, 10., 0.5)
+        pp.create_transformer_from_parameters(net, b[1], b[2], 40, 110, 20, 0.3, 12, 20, 0.05)
+        pp.create_transformer3w_from_parameters(net, b[0], b[2], b[3], 110, 20, 10, 40, 20, 20, 10, 10, 10, .3, .3, .3, 20, 0.05)
+        pp.create_load(net, b[2], 3., 1.)
+        pp.create_load(net, b[3], 1., 0.3)
+        pp.runpp(net, numba=False, lightsim2grid=False)
+        _MT["n"] = net
+    return _MT["n"]
+
+
+def run_real(ctx, cases, entry="sequential", own_val=0.0):
+    """runs the real run_contingency / run_contingency_parallel with the power flow replaced by its contract: per case it fills the
+    result tables with symbolic loadings (the outaged element's own entry as a real run leaves it)"""
+    import copy
+    net = copy.deepcopy(_mt_net())
+    for t in ("res_line", "res_trafo", "res_trafo3w", "res_bus"):
+        net[t] = net[t].astype(object if ctx.symbolic else float)
+    lim = {}
+    for el, i in MT_ELEMENTS:
+        # one symbolic limit (line 1); the others above every possible loading, so that the overloading flags fork on one element only
+        lim[(el, i)] = ctx.var(f"lim_{el}{i}", 10., 150.) if (el, i) == ("line", 1) and len(cases) <= 2 else 500.
+    for el in ("line", "trafo", "trafo3w"):
+        net[el]["max_loading_percent"] = ctx.series([lim[(el, i)] for e2, i in MT_ELEMENTS if e2 == el], index=net[el].index)
+    L, VM = {}, {}
+
+    def evaluate(net_, **kw):
+        out = [(el, i) for el, i in MT_ELEMENTS if not bool(net_[el].at[i, "in_service"])]
+        case = out[0] if out else None
+        tag = "n0" if case is None else f"{case[0]}{case[1]}"
+        for el in ("line", "trafo", "trafo3w"):
+            vals = []
+            for e2, i in MT_ELEMENTS:
+                if e2 != el:
+                    continue
+                if case == (e2, i):
+                    vals.append(own_val)
+                else:
+                    key = (case, (e2, i))
+                    if key not in L:
+                        L[key] = ctx.var(f"load_{tag}_{e2}{i}", 0., 200.)
+                    vals.append(L[key])
+            net_["res_" + el]["loading_percent"] = ctx.series(vals, index=net_[el].index)
+        if case not in VM:
+            VM[case] = ctx.var(f"vm_{tag}", 0.8, 1.2) if len(cases) <= 2 else {None: 1.0}.get(case, 0.9 + 0.03 * len(VM))
+        net_["res_bus"]["vm_pu"] = ctx.series([VM[case]] + [1.0] * (len(net_.bus) - 1), index=net_.bus.index)
+    nm1 = {}
+    for el, i in cases:
+        nm1.setdefault(el, {"index": []})["index"].append(i)
+    if entry == "sequential":
+        cont = ctx.load("pandapower.contingency.contingency")
+        cr = cont.run_contingency(net, nm1, contingency_evaluation_function=evaluate, raise_errors=True)
+    else:
+        par = ctx.load("pandapower.contingency.contingency_parallel")
+        from .common import patched
+
+        class FakePool:       # contract of multiprocessing.Pool.map: the ordered list of the worker function's returns
+            def __init__(self, processes=None): pass
+            def __enter__(self): return self
+            def __exit__(self, *a): return False
+            def map(self, f, tasks): return [f(t) for t in tasks]
+
+        class MP:
+            Pool = FakePool
+            @staticmethod
+            def cpu_count(): return 2
+        with patched(par, mp=MP):
+            cr = par.run_contingency_parallel(net, nm1, n_procs=2 if entry == "parallel" else 1, contingency_evaluation_function=evaluate, raise_errors=True)
+    return net, cr, L, lim, VM
+
+
+def obligations_real(ctx, cases, net, cr, L, lim, VM, label=""):
+    for el in ("line", "trafo", "trafo3w"):
+        ctx.true(f"{label}{el}/reported", el in cr and "max_loading_percent" in cr[el])
+        if el not in cr or "max_loading_percent" not in cr[el]:
+            continue
+        idx = list(cr[el]["index"])
+        for (e2, i) in MT_ELEMENTS:
+            if e2 != el:
+                continue
+            r = idx.index(i)
+            cands = {c: L[(c, (e2, i))] for c in cases if (c, (e2, i)) in L}
+            _is_max(ctx, f"{label}max_loading/{el}{i}", cr[el]["max_loading_percent"][r], list(cands.values()))
+            _is_min(ctx, f"{label}min_loading/{el}{i}", cr[el]["min_loading_percent"][r], list(cands.values()))
+            if cands:
+                ce, ci = cr[el]["cause_element"][r], cr[el]["cause_index"][r]
+                key = (str(ce), int(ci)) if ce is not None else None
+                ctx.true(f"{label}cause_names_a_case_of_the_list/{el}{i}", key in cands)
+                if key in cands:
+                    ctx.true(f"{label}cause_produces_the_reported_max/{el}{i}", cands[key] == cr[el]["max_loading_percent"][r])
+            ctx.eq(f"{label}n0_loading/{el}{i}", cr[el]["loading_percent"][r], L[(None, (e2, i))])
+            if (e2, i) in cases:
+                want = any_of([L[((e2, i), other)] > lim[other] for other in MT_ELEMENTS if ((e2, i), other) in L])
+                got = bool(cr[el]["causes_overloading"][r])
+                ctx.true(f"{label}causes_overloading/{el}{i}", (want == got) if issym(want) else (bool(want) == got))
+            # the result tables of the net carry the same values
+            res = net["res_" + el]
+            for col in ("max_loading_percent", "cause_index", "cause_element"):
+                ctx.true(f"{label}written_to_net/{el}{i}.{col}", col in res.columns)
+            if "cause_element" in res.columns and cands:
+                ctx.true(f"{label}written_to_net/{el}{i}.cause_element_value", res.cause_element.at[i] == cr[el]["cause_element"][r])
+    _is_max(ctx, f"{label}max_vm", cr["bus"]["max_vm_pu"][0], [VM[c] for c in cases])
+    _is_min(ctx, f"{label}min_vm", cr["bus"]["min_vm_pu"][0], [VM[c] for c in cases])
+
+
+def make_real(cases, own_val=0.0):
+    def fn(ctx):
+        net, cr, L, lim, VM = run_real(ctx, cases, "sequential", own_val)
+        obligations_real(ctx, cases, net, cr, L, lim, VM)
+    return fn
+
+
 def instances(tier):
     out = []
     n = 3
@@ -147,6 +271,14 @@ def instances(tier):
             nm = f"lines{n}_order{''.join(map(str, order))}_{tag}_islands{'_'.join(f'{c}{e}' for c, e in sorted(nans))}"
             out.append(Inst(nm, make_fn(n, order, own, wb, frozenset(nans)), nvars=26, samples=2, max_paths=40000,
                             meta=dict(lines=n, case_order=order, own_outage_entry=tag, with_bus=wb, nan_results=sorted(nans))))
+    # the real run_contingency (initialisation of the result arrays, case loop, N-0, writing to the net) on several element types
+    real = [[("line", 0), ("trafo", 0), ("trafo3w", 0)], [("trafo3w", 0), ("line", 0)]]
+    if tier == "thorough":
+        real += [[("trafo", 0), ("line", 1), ("trafo3w", 0)], [("line", 0), ("line", 1), ("trafo", 0), ("trafo3w", 0)]]
+    for cases in real:
+        nm = "run_contingency_" + "_".join(f"{e}{i}" for e, i in cases)
+        out.append(Inst(nm, make_real(cases), nvars=60, samples=2, max_paths=60000, raises=(UserWarning,),
+                        meta=dict(entry="run_contingency", element_types=["line", "trafo", "trafo3w"], cases=[list(c) for c in cases])))
     return out
 
 
